@@ -20,7 +20,7 @@ from ..tok import S
 from ..gen import graphs as G
 
 PID = "C12"
-COQ_HEADER = "From Coq Require Import List NArith ZArith.\nImport ListNotations.\nFrom SK Require Import lib.Tok lib.LGraph model.C12_Model model.C12_Trace model.C12_State.\n"
+COQ_HEADER = "From Coq Require Import List NArith ZArith.\nImport ListNotations.\nFrom SK Require Import lib.Tok lib.LGraph model.C12_Model model.C12_Trace model.C12_Check model.C12_State.\n"
 SHARD = 250
 IMPL_TIMEOUT = 1500
 COQ_TIMEOUT = 1500
@@ -51,16 +51,19 @@ ASSUMPTIONS = ["node ids are distinct ints; no self-loops; simple undirected gra
                "the graph to the model in that order (_nx_prune_order)",
                "node attribute values compared are str or int (interned injectively); bond orders are numeric half-integers or missing",
                "MTG variant: within one case the bond order is missing on at most one of the two graphs (its _edge_match rejects a missing order even against a missing order, which the model reproduces; two-sided gaps are not generated)"]
-TESTED_NOT_PROVED = ["prune_automorphisms=True: WHICH mapping represents a host node set is VF2's choice (first in its enumeration order) -- the "
-                     "kept mappings are judged by the oracle only (valid, maximum, host sets pairwise distinct); orientation, size, subsets "
-                     "tried and the SET of represented host node sets are modelled and compared (run_matcher_auto, C12_prune_auto_host_sets)",
-                     "mcs_mol: WHICH isomorphism maps a matched component onto its partner is VF2's choice -- the combined mapping is judged by "
-                     "the oracle (validity); which components are paired, the size and the number of matcher objects are modelled and compared "
-                     "(run_mcs_mol), and C12_mcs_mol_valid proves validity for every choice of valid mappings inside the pairs",
-                     "derived views of a matcher object (mappings, num_mappings, mapping_direction, iteration, repr, repeated and re-ordered "
-                     "get_mappings reads, reads after the caller edited earlier results): checked by the adapter against the stored result "
-                     "after every step of every history"]
-LEVEL_TEXT = ("Machine-checked proof (Coq, 45 theorems in coq/props/C12.v, all closed under the global context) over an executable model "
+TESTED_NOT_PROVED = ["prune_automorphisms=True: WHICH mapping represents a host node set is VF2's choice (first in its enumeration order). Since "
+                     "round 4/5 the choice is an INPUT of the model (computed by the harness from networkx alone, validated by apply_choices): "
+                     "single calls and history steps on fresh graph objects compare the full returned lists (C12_prune_auto_choices, "
+                     "C12_history_prune_auto); on graph objects edited in place the choice is not reproducible from the case and only "
+                     "orientation, size, subsets tried and the SET of represented host node sets are compared (run_matcher_auto)",
+                     "mcs_mol: WHICH isomorphism maps a matched component onto its partner is VF2's choice. Since round 5 the combined mapping is an "
+                     "INPUT of the model (from networkx alone), validated against the model's own greedy component pairing with the decision "
+                     "procedure ci_check (C12_ci_check_decides, C12_mcs_mol_choice_valid, C12_history_mcs_mol): single calls and history steps on "
+                     "fresh graph objects compare the full mapping; on objects edited in place and through the ITS facade only the pairing, the "
+                     "size and the number of matcher objects (run_mcs_mol)",
+                     "its_decompose (synkit.Graph.ITS, not anchored): the four sides are inputs of the model, computed by the generator independently",
+                     "__repr__ / help / __iter__ of the matcher objects: checked by the adapter against the stored result after every step"]
+LEVEL_TEXT = ("Machine-checked proof (Coq, 48 theorems in coq/props/C12.v, all closed under the global context) over an executable model "
               "of MCSMatcher._search_subgraphs / _prune_graph / _prepare_orientation / find_common_subgraph / get_mappings (both copies of "
               "the matcher), for all pairs of graphs with distinct node ids: every returned mapping (both modes, all three directions, after "
               "orientation swap and wildcard pruning) is a function, injective, label-preserving, and preserves presence AND order of every "
@@ -78,7 +81,8 @@ LEVEL_TEXT = ("Machine-checked proof (Coq, 45 theorems in coq/props/C12.v, all c
               "C12_history_independent (a search never looks at the cache), C12_history_valid / C12_history_valid_raw (the property after ANY "
               "history of calls on one object, the latter stated on the caller's raw graphs with the object's options incl. wildcard pruning), C12_reads_inverse, C12_state_unknown, C12_facade_sides, C12_history_component_valid, C12_ctor_normalised, C12_raw_matchers, "
               "C12_raw_meaning; C12_search_trace (per GraphMatcher object: k-subset and number of isomorphisms, compared with the instrumented "
-              "implementation on every plain search). Model and code are compared on every run (ordered lists, sizes, subset counts, every read of every history).")
+              "implementation on every plain search); C12_history_prune_auto, C12_ci_check_decides / C12_mcs_mol_choice_valid / C12_history_mcs_mol "
+              "(the two VF2-order dependent modes with VF2's choices as validated inputs). Model and code are compared on every run (ordered lists, sizes, subset counts, every read of every history).")
 LEVEL_NOTE = ("Trusted: Coq kernel + vm_compute; the hand-written model and encoders; networkx VF2 returns, for every k-subset, the same set of "
               "induced sub-graph isomorphisms as the verified enumerator (C12_vf2_premise states that nothing else about VF2 matters; "
               "monitored: ordered result lists compared on every case); in component-wise mode with pruning the node order of networkx's pruned copy "
@@ -265,9 +269,42 @@ def _vf2_first_per_host_set(case):
     return [sorted([int(p), int(h)] for p, h in m.items()) for m in first.values()]
 
 
+def _vf2_mol_choice(case):
+    """mcs_mol: WHICH isomorphism maps a matched component onto its partner is VF2's choice (gm.mapping after is_isomorphic()).
+    It is an INPUT of the model (validated there against the model's own component pairing): computed here with networkx alone,
+    on graphs built exactly as the adapter builds them, with the same sequence of GraphMatcher calls on subgraph views."""
+    import networkx as nx
+    from networkx.algorithms.isomorphism import GraphMatcher
+    g1, g2 = _nx_graphs(case)
+    nm, em = _nx_matchers(case)
+    comps1 = sorted(nx.connected_components(g1), key=len, reverse=True)
+    comps2 = sorted(nx.connected_components(g2), key=len, reverse=True)
+    used, combined = set(), {}
+    for c1 in comps1:
+        for c2 in comps2:
+            if len(c2) != len(c1) or frozenset(c2) in used:
+                continue
+            gm = GraphMatcher(g1.subgraph(c1), g2.subgraph(c2), node_match=nm, edge_match=em)
+            if gm.is_isomorphic():
+                combined.update(gm.mapping)
+                used.add(frozenset(c2))
+                break
+    return [[int(a), int(b)] for a, b in combined.items()]
+
+
+def _mol_tracked(case):
+    """mcs_mol on FRESH graph objects: the combined mapping itself is compared (VF2's choice is a model input); on objects edited
+    in place the adjacency order -- and with it VF2's choice -- is not reproducible from the case: pairing only."""
+    return bool(case.get("mode") == "mcs_mol" and case.get("variant", "matcher") == "matcher"
+                and (not case.get("in_history") or case.get("mol_tracked")))
+
+
 def _obs(M, cnt, variant, case=None):
-    if case is not None and case.get("mode") == "mcs_mol":
+    if case is not None and case.get("mode") == "mcs_mol" and not _mol_tracked(case):
         return [M._last_pattern_is_G1, M.last_size, cnt, _mol_pairs(case, M)]
+    if case is not None and case.get("mode") == "mcs_mol":
+        return [M._last_pattern_is_G1, M.last_size, cnt, _dicts(M.get_mappings()), _dicts(M.get_mappings("G1_to_G2")),
+                _dicts(M.get_mappings("G2_to_G1"))]
     if (case is not None and case.get("prune_auto") and not case.get("mode") and variant == "matcher" and case.get("in_history")
             and not case.get("auto_tracked")):
         # which representative survives is VF2's choice; compared: orientation, size, subsets tried and the SET of host node sets
@@ -370,6 +407,7 @@ def _sub(case, st):
     # adjacency order, and with it VF2's enumeration order, is not reproducible from the case -- such steps stay external)
     d["auto_tracked"] = bool(d["prune_auto"] and case["variant"] == "matcher" and st.get("call", "fcs") == "fcs"
                              and st.get("src_g1") is None and st.get("src_g2") is None)
+    d["mol_tracked"] = bool(st.get("src_g1") is None and st.get("src_g2") is None and st.get("call") == "mcs_mol")
     if st.get("call") in ("mcs_mol", "component"):
         d["mode"] = st["call"]
     if st.get("call") == "rc_side" and st.get("component"):
@@ -752,8 +790,15 @@ def _coq_history(case):
                                                                 _coq_rgraph(_nx_prune_order(st["g2"], sub), T, needed), cbool(st["mcs"]), ch))
                 opaque.discard(ci)
                 continue
+            if (sub.get("mode") == "mcs_mol" and sub.get("mol_tracked") and call == "mcs_mol" and not cfg.get("prune_auto")
+                    and _in_domain(sub)):
+                ch = clist([cpair(cN(a), cN(b)) for a, b in _vf2_mol_choice(sub)])
+                ops.append("HCall %d (MFindMol %s %s %s)" % (ci, _coq_rgraph(_nx_prune_order(st["g1"], sub), T, needed),
+                                                            _coq_rgraph(_nx_prune_order(st["g2"], sub), T, needed), ch))
+                opaque.discard(ci)
+                continue
             if cfg.get("prune_auto") or sub.get("mode") == "mcs_mol":
-                t = coq_case(dict(sub, auto_tracked=False))
+                t = coq_case(dict(sub, auto_tracked=False, mol_tracked=False))
                 if t is None:
                     return None
                 ops.append("HExternal %d (%s)" % (ci, t))
@@ -853,6 +898,9 @@ def coq_case(case):
     I = _intern(case)
     defs = clist([cN(I(d)) for d in case["node_defaults"]])
     g1, g2 = _coq_graph(_nx_prune_order(case["g1"], case), case, I), _coq_graph(_nx_prune_order(case["g2"], case), case, I)
+    if case["variant"] == "matcher" and case.get("mode") == "mcs_mol" and _mol_tracked(case):
+        ch = clist([cpair(cN(a), cN(b)) for a, b in _vf2_mol_choice(case)])
+        return "run_mcs_mol_with %s %s %s %s %s %s" % (defs, cbool(case.get("prune_wc", False)), cN(I(_wc(case))), g1, g2, ch)
     if case["variant"] == "matcher" and case.get("mode") == "mcs_mol":
         return "run_mcs_mol %s %s %s %s %s" % (defs, cbool(case.get("prune_wc", False)), cN(I(_wc(case))), g1, g2)
     if case["variant"] == "matcher":
@@ -1009,7 +1057,7 @@ def _msizes(case, obs):
     """Sizes of the returned mappings, from the observable (prune_automorphisms: sizes of the host node sets)."""
     if case.get("prune_auto") and not case.get("mode") and case["variant"] == "matcher" and case.get("in_history") and not case.get("auto_tracked"):
         return [len(h) for h in obs[3]["__set__"]]
-    if case.get("mode") == "mcs_mol":
+    if case.get("mode") == "mcs_mol" and not _mol_tracked(case):
         return [sum(len(p[0]["__set__"]) for p in obs[3]["__set__"])]
     ms = obs[3] if case["variant"] == "matcher" else obs[2]
     return [len(m["__set__"]) for m in ms]
